@@ -146,7 +146,8 @@ fn same(a: &MwForm, b: &MwForm) -> bool {
     out_same && o
 }
 
-pub const TEMPLATES: [(&str, &str); 14] = [
+pub const TEMPLATES: [(&str, &str); 15] = [
+    ("big-procedure-many-jumps", "(define (big x) (cond ((= x 0) (if (> x 1) 1 (if (> x 2) 2 (if (> x 3) 3 (if (> x 4) 4 (if (> x 5) 5 (if (> x 6) 6 (if (> x 7) 7 (if (> x 8) 8 (if (> x 9) 9 (if (> x 10) 10 (if (> x 11) 11 (if (> x 12) 12 (if (> x 13) 13 (if (> x 14) 14 (if (> x 15) 15 (if (> x 16) 16 (if (> x 17) 17 (if (> x 18) 18 (if (> x 19) 19 (if (> x 20) 20 (if (> x 21) 21 (if (> x 22) 22 (if (> x 23) 23 (if (> x 24) 24 (if (> x 25) 25 (if (> x 26) 26 (if (> x 27) 27 (if (> x 28) 28 (if (> x 29) 29 (if (> x 30) 30 (if (> x 31) 31 (if (> x 32) 32 (if (> x 33) 33 (if (> x 34) 34 (if (> x 35) 35 (if (> x 36) 36 (if (> x 37) 37 (if (> x 38) 38 (if (> x 39) 39 (if (> x 40) 40 (if (> x 41) 41 (if (> x 42) 42 (if (> x 43) 43 (if (> x 44) 44 (if (> x 45) 45 (if (> x 46) 46 (if (> x 47) 47 (if (> x 48) 48 (if (> x 49) 49 50)))))))))))))))))))))))))))))))))))))))))))))))))) ((= x 1) (list x x)) (else (vector x)))) (define keep (let loop ((i 0) (acc '())) (if (< i {S}) (loop (+ i 1) (cons (big (remainder i 3)) acc)) acc))) (length keep) (big 0) (let loop ((i 0)) (if (< i {N}) (begin (list i (big 2)) (loop (+ i 1))))) (car keep)"),
     ("list-builder", "(define (build n) (if (= n 0) '() (cons n (build (- n 1))))) (define l (build {N})) (length l) (apply + l) (define l2 (map (lambda (x) (* x x)) l)) (list (car l2) (length (append l l2)))"),
     ("vector-builder", "(define v (make-vector {S} 'x)) (vector-set! v 0 (list 1 2 3)) (define w (vector (list 'a 'b) (vector 1 (list 2)) \"str\")) (vector-fill! v (cons 1 2)) (list (vector-ref v 1) w (vector->list (vector 1 2 3)))"),
     ("quasi-aggregates", "(define x {S}) (define q1 `(a ,x #(b ,(list x x)) (c . ,x))) (define q2 `#(,(list 1 2) ,(vector 3 (list 4)) ,(cons x x))) (define (mk y) `#(,y ,(list y))) (list q1 q2 (mk 1) (mk 2))"),
@@ -307,6 +308,62 @@ pub fn check_program(forms: &[Cell], label: &str, rng: &mut Rng, quick: bool, re
     ok
 }
 
+/// One VM lives through hundreds of generated sessions (no forced schedule): every *natural*
+/// collection is audited. This reaches heap layouts that short-lived VMs never see (cells freed
+/// and reused at low indices, large procedures, growth of the heap).
+fn long_lived_vm(ctx: &Ctx, rep: &mut Report, index: u64) {
+    let mut rng = ctx.rng("c03-long", index);
+    let mut m = MwVm::new();
+    let log = Rc::new(RefCell::new(AuditLog::default()));
+    // observer only: collections happen when the VM itself decides
+    install(&mut m, &Schedule::EveryK(u64::MAX), log.clone(), 0);
+    m.vm.verif_set_gc_schedule(None);
+    let n_sessions = if ctx.quick() { 150 } else { 600 };
+    let mut texts: Vec<String> = vec![];
+    rep.evaluations += 1;
+    for si in 0..n_sessions {
+        let forms = if si % 5 == 4 {
+            c05::session(&mut rng).forms
+        } else {
+            gen::session(&mut rng, c01::opts_main(), si % 7 == 3).forms
+        };
+        texts.push(gen::text_of(&forms));
+        for f in &forms {
+            let r = run_form(&mut m, f);
+            if let MwOutcome::Panic(p) = &r.outcome {
+                rep.violation(
+                    &format!("long-lived-vm:panic:{}", p.file()),
+                    format!("after {} sessions in one VM, {:#} panicked: {} at {}", si, f, p.message, p.location),
+                    Json::obj().set("sessions", texts.join("\n;;=====\n")).set("index", index),
+                    (ctx.shard, index),
+                );
+                return;
+            }
+            if let MwOutcome::Budget = r.outcome {
+                // run_form replaced the VM; re-install the observer
+                install(&mut m, &Schedule::EveryK(u64::MAX), log.clone(), 0);
+                m.vm.verif_set_gc_schedule(None);
+            }
+        }
+        // the canary must keep working
+        let c = run_form(&mut m, &c05::parse_forms("(+ 1 2)")[0]);
+        if !matches!(&c.outcome, MwOutcome::Value(d) if d.show() == "3") {
+            rep.violation("long-lived-vm:canary-fails", format!("after {} sessions (+ 1 2) -> {}", si, show_outcome(&c.outcome)), Json::obj().set("sessions", texts.join("\n;;=====\n")), (ctx.shard, index));
+            return;
+        }
+        let first = log.borrow().findings.first().cloned();
+        if let Some(f) = first {
+            rep.violation(&format!("auditor:{}:natural-collection", f.kind), format!("{} at a natural collection after {} sessions in one VM :: {}", f.kind, si, f.detail), Json::obj().set("sessions", texts.join("\n;;=====\n")), (ctx.shard, index));
+            return;
+        }
+    }
+    let l = log.borrow();
+    rep.count("natural_collections_audited", l.collections);
+    rep.count("long_lived_vm_sessions", n_sessions as u64);
+    rep.max("max_live_cells", l.max_live as u64);
+    rep.nontrivial(hash_str(&format!("long{}", index)));
+}
+
 pub fn run(ctx: &Ctx, rep: &mut Report) {
     let verbose = ctx.is_replay() || ctx.witness.is_some();
     if let Some(w) = &ctx.witness {
@@ -322,6 +379,10 @@ pub fn run(ctx: &Ctx, rep: &mut Report) {
     }
     let n = ctx.cases(320, 5_000);
     for index in ctx.indices(n) {
+        if index % 10 == 9 {
+            long_lived_vm(ctx, rep, index);
+            continue;
+        }
         let mut rng = ctx.rng("c03", index);
         let (forms, label) = program(&mut rng, index);
         if verbose {
